@@ -50,6 +50,13 @@ EXTRA = {
             ("SafeC.Sort.siftLoop_safe", "SafeC.Proofs.SortSafe", "lemma", "loop invariant of sift: the walk stays inside the Leonardo tree (positions < n, no pointer below base, ar[] not overrun), any comparator"),
             ("SafeC.Sort.cycleGo_tot", "SafeC.Proofs.SortSafe", "lemma", "the element moves of cycle() on in-range positions never fault"),
             ("SafeC.Sort.steps_bound", "SafeC.Proofs.Bsearch", "lemma", "steps(m) <= ceil(log2 m) + 1, in the form 2^(steps m - 1) <= 2(m-1) for m >= 2")],
+    "C11": [("SafeC.Printf.ntoaDigits_eq", "SafeC.Proofs.PrintfDigits", "lemma", "the do-while digit loop from any fill state with room and fuel: appends the digits of the value, least significant first (induction on the fuel)"),
+            ("SafeC.Printf.revDigits_length_64", "SafeC.Proofs.PrintfDigits", "lemma", "a 64-bit value has at most 22 digits in a base >= 8: the 32-byte buffer never cuts the digits"),
+            ("SafeC.Printf.revDigits_eq_reverse", "SafeC.Proofs.PrintfDigits", "lemma", "least-significant-first digits = reverse of Spec.digits"),
+            ("SafeC.Printf.ntoaPrep_nohash", "SafeC.Proofs.PrintfFormat", "lemma", "safec_ntoa_format without '#': buffer = digits ++ precision zeros ++ width zeros ++ sign, for every flag combination, value, width and precision within the 32-byte buffer"),
+            ("SafeC.Printf.outRev_eq", "SafeC.Proofs.PrintfEmit", "lemma", "safec_out_rev = one emitAll of (left padding ++ reversed buffer ++ right padding), any sink, any state"),
+            ("SafeC.Printf.emitRep_eq", "SafeC.Proofs.PrintfEmit", "lemma", "the padding loops = emitAll of a replicate"),
+            ("SafeC.Printf.emitAll_idx", "SafeC.Proofs.PrintfEmit", "lemma", "a successful emitAll advances idx by the number of characters, whatever the sink")],
     "C08": [("SafeC.nullSlack_ok", "SafeC.Lemmas", "lemma", "both slack strategies (memset > 0x20, byte loop) zero the whole tail")],
     "C18": [("SafeC.setPrologue_ok", "SafeC.Proofs.MemSet", "lemma", "mem_prim_set alignment prologue: k <= count bytes stored, stops aligned or exhausted"),
             ("SafeC.setBlocks_ok", "SafeC.Proofs.MemSet", "lemma", "mem_prim_set 16-way unrolled body, induction on the block count: q*128 bytes"),
